@@ -70,7 +70,35 @@ def seed_corpus(rng, n_generated=20):
         else:
             t = scopegen.gen_template_program(rng)[0]
         out.append(("generated/%d" % i, t.encode()))
+    from gen import macgen
+    for i in range(6):
+        out.append(("generated/macros%d" % i, macgen.text(macgen.gen_program(rng)).encode()))
+    for form in ("redefine", "redefine-in-place", "undef-only", "undefined-name", "nested", "untouched"):
+        for _ in range(300):      # one program per push/pop form
+            prog = macgen.gen_program(rng)
+            if "push_pop-" + form in prog.features:
+                out.append(("generated/macros-push-%s" % form, macgen.text(prog).encode()))
+                break
+    for i in range(4):
+        out.append(("generated/literals%d" % i, udl_program(rng).encode()))
     return out
+
+
+def udl_program(rng):
+    """user-defined literals: literal operators with the parameter lists [over.literal] allows and some it does not, and uses"""
+    plists = ["unsigned long long", "long double", "const char *", "char", "const char *, unsigned long", "const char *, size_t", "wchar_t", "const char16_t *, unsigned long",
+              "", "...", "int", "unsigned long long, int", "double", "void", "const char *, unsigned long, int"]
+    sufs = ["_km", "_raw", "_s", "_v", "_deg"]
+    lines = ["typedef unsigned long size_t;"]
+    for suf in rng.sample(sufs, rng.randrange(2, 5)):
+        for pl in rng.sample(plists, rng.randrange(1, 4)):
+            form = rng.choice(['operator "" %s', 'operator ""%s', "operator \"\" %s"])
+            lines.append("%s %s(%s);" % (rng.choice(["unsigned long long", "long double", "int", "void"]), form % suf, pl))
+        for k in range(rng.randrange(1, 4)):
+            lit = rng.choice(["5", "0.5", "'c'", '"str"', "0x1F", "1e3", "7", "1'000"])
+            lines.append("auto u%s%d = %s%s;" % (suf, k, lit, suf))
+    lines.append("int unknown_suffix = 3_nowhere;")
+    return "\n".join(lines) + "\n"
 
 
 def tokens(b):
